@@ -24,6 +24,7 @@ import (
 	metav1 "k8s.io/apimachinery/pkg/apis/meta/v1"
 	"k8s.io/apimachinery/pkg/apis/meta/v1/unstructured"
 	"k8s.io/apimachinery/pkg/runtime"
+	"k8s.io/apimachinery/pkg/runtime/schema"
 	"k8s.io/apimachinery/pkg/types"
 	"sigs.k8s.io/controller-runtime/pkg/client"
 	"sigs.k8s.io/controller-runtime/pkg/reconcile"
@@ -345,8 +346,18 @@ func plant(w *sim.World, created map[string]any, variant string) sim.Key {
 	for _, f := range []string{"uid", "resourceVersion", "creationTimestamp", "generation", "managedFields", "ownerReferences"} {
 		delete(md, f)
 	}
+	legit := sim.ControllerOf(created)
 	if variant == "foreign" {
 		md["ownerReferences"] = []any{foreignRef()}
+	}
+	if variant == "foreign-lookalike" {
+		// a different owner of the SAME kind as the legitimate one whose name merely extends it
+		// (e.g. a revision of package "provider-aws-s3" when installing "provider-aws")
+		if legit == nil {
+			return sim.Key{}
+		}
+		md["ownerReferences"] = []any{map[string]any{"apiVersion": legit["apiVersion"], "kind": legit["kind"], "name": sim.Str(legit, "name") + "-s3-0a1b2c3d4e5f",
+			"uid": "foreign-uid-0002", "controller": true, "blockOwnerDeletion": true}}
 	}
 	ls, _ := md["labels"].(map[string]any)
 	if ls == nil {
@@ -379,7 +390,7 @@ func judge(c *kit.Ctx, s site, caseName, variant string, w *sim.World, k sim.Key
 		}
 		return m
 	}
-	if variant == "foreign" {
+	if strings.HasPrefix(variant, "foreign") {
 		if after == nil {
 			c.Violate("foreign-object-deleted:"+s.name, caseName, "object controlled by a foreign owner was deleted", wit())
 		} else if !reflect.DeepEqual(sansServerStatus(before), sansServerStatus(after)) {
@@ -400,7 +411,7 @@ func judge(c *kit.Ctx, s site, caseName, variant string, w *sim.World, k sim.Key
 	if addressed > 0 {
 		c.Count("foreign_object_addressed", 1)
 	}
-	if c.WantSample() && variant == "foreign" && addressed > 0 {
+	if c.WantSample() && strings.HasPrefix(variant, "foreign") && addressed > 0 {
 		c.Sample(wit())
 	}
 }
@@ -447,8 +458,11 @@ func runSite(c *kit.Ctx, s site, round int) {
 	c.Count("probe_created_objects", int64(len(created)))
 	sort.Slice(created, func(i, j int) bool { return sim.KeyOf(created[i]).String() < sim.KeyOf(created[j]).String() })
 	for _, obj := range created {
-		for _, variant := range []string{"foreign", "uncontrolled"} {
+		for _, variant := range []string{"foreign", "foreign-lookalike", "uncontrolled"} {
 			k := sim.KeyOf(obj)
+			if variant == "foreign-lookalike" && sim.ControllerOf(obj) == nil {
+				continue
+			}
 			caseName := fmt.Sprintf("%s/%s/%s/%s/r%d", s.name, k.Kind, strings.ReplaceAll(k.Name, sfx, ""), variant, round)
 			if !c.Want(caseName) {
 				continue
@@ -472,7 +486,7 @@ func runSite(c *kit.Ctx, s site, round int) {
 
 func composedSites(c *kit.Ctx, round int) {
 	for _, mode := range []string{"pipeline", "pt"} {
-		for _, what := range []string{"still-desired", "no-longer-desired"} {
+		for _, what := range []string{"still-desired", "no-longer-desired", "recreated-by-foreign-behind-cache"} {
 			caseName := fmt.Sprintf("xr-%s-composed-reparented/%s/r%d", mode, what, round)
 			if !c.Want(caseName) {
 				continue
@@ -509,7 +523,16 @@ func composedSites(c *kit.Ctx, round int) {
 			}
 			_ = xrk.ReconcileComposition(w, "comp")
 			w.MustSeed("user", xrk.XRObject("ex.org/v1", "XThing", "xr1", "comp", map[string]any{"compositionUpdatePolicy": "Automatic"}))
-			env := xrk.NewXREnv(w, xrk.XRDTyped(d))
+			// the XR controller reads composed kinds through a cache that may lag (only used by the
+			// behind-cache case) and falls back to an uncached read
+			lag := int64(0)
+			cached := w.LaggingClient("xr", func(gk schema.GroupKind) (int64, bool) {
+				if lag > 0 && gk.Group == "nop.ex.org" {
+					return lag, true
+				}
+				return 0, false
+			})
+			env := xrk.NewXREnvSplit(w, xrk.XRDTyped(d), cached, w.Client("xr"))
 			for i := 0; i < 2; i++ {
 				_, _, _ = env.Reconcile("xr1")
 			}
@@ -518,11 +541,24 @@ func composedSites(c *kit.Ctx, round int) {
 			for _, o := range w.ListObjs(sim.Key{Group: "nop.ex.org", Kind: "NopA"}.GK()) {
 				if n, _, _ := unstructured.NestedString(o, "metadata", "annotations", annResName); n == "a" {
 					u := &unstructured.Unstructured{Object: o}
+					pk = sim.KeyOf(o)
+					if what == "recreated-by-foreign-behind-cache" {
+						// the composed resource disappears and another owner creates an object under the
+						// very name the XR still references; the XR controller's cache has not seen it yet
+						_ = w.Client("user").Delete(ctx, u)
+						n := &unstructured.Unstructured{Object: map[string]any{"apiVersion": "nop.ex.org/v1", "kind": "NopA",
+							"metadata": map[string]any{"name": u.GetName(), "annotations": map[string]any{annResName: "a"}, "ownerReferences": []any{foreignRef()}},
+							"spec":     map[string]any{"forProvider": map[string]any{"v": "theirs"}}}}
+						if err := w.Client("someone-else").Create(ctx, n); err != nil {
+							panic(err)
+						}
+						lag = 1
+						continue
+					}
 					_ = unstructured.SetNestedSlice(u.Object, []any{foreignRef()}, "metadata", "ownerReferences")
 					if err := w.Client("someone-else").Update(ctx, u); err != nil {
 						panic(err)
 					}
-					pk = sim.KeyOf(o)
 				}
 			}
 			if what == "no-longer-desired" {
